@@ -11,6 +11,7 @@ import (
 	"path/filepath"
 	"sort"
 	"strings"
+	"syscall"
 
 	"verifharness/gen"
 )
@@ -130,6 +131,12 @@ type propFn func(c *Ctx)
 var props = map[string]propFn{}
 
 func main() {
+	// programs on the mutable mount keep their backing files open until the process ends
+	var lim syscall.Rlimit
+	if syscall.Getrlimit(syscall.RLIMIT_NOFILE, &lim) == nil && lim.Cur < lim.Max {
+		lim.Cur = lim.Max
+		_ = syscall.Setrlimit(syscall.RLIMIT_NOFILE, &lim)
+	}
 	if len(os.Args) < 2 {
 		fmt.Fprintln(os.Stderr, "usage: vharness <property> [-tier quick|thorough] [-seed n] [-out dir] [-replay file]")
 		os.Exit(2)
